@@ -432,6 +432,24 @@ def check(fx, rep, tier):
     check_r065(fx, rep)
     check_r066(fx, rep)
     check_r067(fx, rep)
+    # registration keeps every distinct literal key apart: nothing in the type checker's state (or the checker itself) reads a
+    # constant as a native integer (a cache or index keyed by `usize::from(word)` merges slots that agree modulo 2^64)
+    from .c11 import constant_readers
+
+    narrowers = {k: v for k, v in constant_readers(fx, lambda d: d.startswith("tc::state::") or d.startswith("tc::TypeChecker::")).items() if any("->" in x or x.startswith(("as_", "try_from", "into", "from")) for x in v.split(","))}
+    rep.oblige(
+        not narrowers,
+        "R06.6",
+        "no-narrowing-in-registration",
+        F.loc(fx.body(sorted(narrowers)[0])["span"]) if narrowers else "-",
+        f"the type checker's state converts a constant to a native integer ({narrowers}): values or slots keyed that way are merged when their low bits agree, and one of them loses its layout row",
+        sample={"rule": "R06.6", "functions_scanned": sum(1 for b in fx.fn_bodies() if b["def"].startswith(("tc::state::", "tc::TypeChecker::"))), "narrowing_readers": len(narrowers)},
+    )
+    # a checker that is used again starts from an empty state (a stale stable-type cache answers registrations of a later
+    # run and the value - hence its slot - is never registered): shared with C05 R05.7
+    from .c05 import check_fresh_run
+
+    check_fresh_run(fx, rep, "R06.4")
     return rep.finish(
         "Must-flow / append-only audit of the chain executed access -> generation -> stored state -> exported StorageWrite -> lifted value -> registered value -> StorageSlot key -> layout row, "
         "with the row index carried as a 256-bit type and no dropping adaptor, conditional or narrowing on any link.",
